@@ -5,9 +5,9 @@
 import struct
 
 
-def build_v2(threads, pad, records, tick=24000000):
+def build_v2(threads, pad, records, tick=24000000, is_64bit=1):
     """threads: [(tid, pid, name)], pad: number of zero bytes, records: [64-byte records]"""
-    out = b'\x00\x02\xaa\x55' + struct.pack('<I', len(threads)) + bytes(12) + struct.pack('<I', 1) + struct.pack('<Q', tick) + bytes(0x100)
+    out = b'\x00\x02\xaa\x55' + struct.pack('<I', len(threads)) + bytes(12) + struct.pack('<I', is_64bit) + struct.pack('<Q', tick) + bytes(0x100)
     for tid, pid, name in threads:
         out += struct.pack('<QI', tid, pid) + name.encode().ljust(20, b'\0')[:20]
     out += bytes(pad)
